@@ -17,13 +17,14 @@
 #include "heap.h"
 
 #define NH 24
-#define MAXE 4096
+#define MAXC 700   /* counters per handler within one input */
 
-struct MEntry { double q, r; int h; uint counter; int present; };
-static struct MEntry model[MAXE];
-static int model_n;
+static double mq[NH][MAXC], mr[NH][MAXC];
+static unsigned char present[NH][MAXC];
+static unsigned int stamp[NH][MAXC], cur_stamp;
 static uint min_valid[NH];
-static int live_index[NH]; /* index into model of the live entry of h, or -1 */
+static int live[NH];       /* 1 if h has a live entry (counter == min_valid[h]) */
+static int total_present;
 
 static int valid_cb(void *sched, void *handler, uint counter) {
     (void) sched;
@@ -36,50 +37,62 @@ static int less(double q1, double r1, double q2, double r2) { return q1 < q2 || 
 
 static void fail(const char *msg) { fprintf(stderr, "ORACLE: %s\n", msg); abort(); }
 
+/* (handler, counter) identifies an entry: a handler is pushed at most once per counter value */
 static void scan(struct Heap *heap, int exact) {
-    /* enumerate through entry(); check heap order, multiset inclusion, presence of every live entry */
-    static struct HeapEntry seen[MAXE];
+    double pq[4] = {0, 0, 0, 0};
+    (void) pq;
+    cur_stamp++;
     int n = 0;
+    static struct HeapEntry seen[NH * MAXC + 8];
     for (uint i = 0; ; i++) {
         struct HeapEntry e = entry(heap, i);
         if (e.event_handler == NULL) break;
-        if (n >= MAXE) fail("entry() enumerates more entries than were ever inserted");
+        if (n >= NH * MAXC) fail("entry() enumerates more entries than were ever inserted");
         seen[n++] = e;
     }
-    for (int p = 1; p < n; p++) { /* seen[p] is heap position p+1, parent position (p+1)/2 -> index (p+1)/2-1 */
+    for (int p = 1; p < n; p++) { /* seen[p] is heap position p+1, its parent is heap position (p+1)/2 */
         int parent = (p + 1) / 2 - 1;
         if (less(seen[p].time_quotient, seen[p].time_remainder, seen[parent].time_quotient, seen[parent].time_remainder))
             fail("heap order violated (child smaller than parent)");
     }
-    static int used[MAXE];
-    memset(used, 0, sizeof(int) * (size_t) model_n);
     for (int i = 0; i < n; i++) {
-        int found = -1;
-        for (int j = 0; j < model_n; j++) {
-            if (!used[j] && model[j].present && model[j].q == seen[i].time_quotient && model[j].r == seen[i].time_remainder
-                && model[j].h == (int) ((uintptr_t) seen[i].event_handler) - 1 && model[j].counter == seen[i].counter) {
-                found = j; break;
+        int h = (int) ((uintptr_t) seen[i].event_handler) - 1;
+        uint c = seen[i].counter;
+        if (h < 0 || h >= NH || c >= MAXC || !present[h][c]) fail("entry() returned an entry that was never inserted or was already deleted");
+        if (stamp[h][c] == cur_stamp) fail("entry() returned the same entry twice");
+        if (mq[h][c] != seen[i].time_quotient || mr[h][c] != seen[i].time_remainder) fail("entry() returned an entry with a corrupted time");
+        stamp[h][c] = cur_stamp;
+    }
+    if (n != total_present) {
+        for (int h = 0; h < NH; h++) {
+            for (uint c = 0; c < MAXC; c++) {
+                if (present[h][c] && stamp[h][c] != cur_stamp) {
+                    if (c >= min_valid[h]) fail("a live entry is missing from the heap");
+                    if (exact) fail("an entry of another handler disappeared");
+                    present[h][c] = 0; /* a stale entry that root() discarded lazily */
+                    total_present--;
+                }
             }
         }
-        if (found < 0) fail("entry() returned an entry that was never inserted or was already deleted");
-        used[found] = 1;
+        if (n != total_present) fail("model and heap disagree on the number of entries");
     }
-    for (int j = 0; j < model_n; j++) {
-        if (!model[j].present) continue;
-        int is_live = model[j].counter >= min_valid[model[j].h];
-        if (!used[j]) {
-            if (is_live) fail("a live entry is missing from the heap");
-            if (exact) fail("an entry of another handler disappeared");
-            model[j].present = 0; /* a stale entry that root() discarded lazily */
-        }
-    }
+}
+
+static void push(struct Heap *heap, int h, double q, double r) {
+    if (live[h] || min_valid[h] >= MAXC) return;
+    size_t bytes = insert(heap, q, r, (void *) (uintptr_t) (h + 1), min_valid[h]);
+    if (bytes == (size_t) -1) fail("insert reported an allocation failure");
+    uint c = min_valid[h];
+    mq[h][c] = q; mr[h][c] = r; present[h][c] = 1; total_present++;
+    live[h] = 1;
 }
 
 int LLVMFuzzerTestOneInput(const uint8_t *data, size_t size) {
     struct Heap *heap = construct_heap();
     if (!heap) return 0;
-    model_n = 0;
-    for (int h = 0; h < NH; h++) { min_valid[h] = 0; live_index[h] = -1; }
+    memset(present, 0, sizeof(present));
+    total_present = 0;
+    for (int h = 0; h < NH; h++) { min_valid[h] = 0; live[h] = 0; }
     static const double QS[4] = {0.0, 1.0, 2.0, 1099511627776.0};
     static const double RS[4] = {0.0, 0.25, 0.5, 0.9999999999999999};
     size_t i = 0;
@@ -90,35 +103,28 @@ int LLVMFuzzerTestOneInput(const uint8_t *data, size_t size) {
             if (i + 1 >= size) break;
             int h = data[i++] % NH;
             uint8_t t = data[i++];
-            if (live_index[h] >= 0) continue;
-            if (model_n >= MAXE - 1) continue;
-            double q = QS[t & 3], r = RS[(t >> 2) & 3];
-            size_t bytes = insert(heap, q, r, (void *) (uintptr_t) (h + 1), min_valid[h]);
-            if (bytes == (size_t) -1) fail("insert reported an allocation failure");
-            model[model_n] = (struct MEntry) {q, r, h, min_valid[h], 1};
-            live_index[h] = model_n++;
+            push(heap, h, QS[t & 3], RS[(t >> 2) & 3]);
         } else if (kind == 3) { /* trash */
             if (i >= size) break;
             int h = data[i++] % NH;
-            min_valid[h]++;
-            live_index[h] = -1;
+            if (min_valid[h] + 1 < MAXC) { min_valid[h]++; live[h] = 0; }
         } else if (kind == 4 || kind == 5) { /* root */
             struct HeapEntry top = root(heap, NULL, valid_cb);
             int have = 0; double bq = 0, br = 0;
             for (int h = 0; h < NH; h++) {
-                if (live_index[h] < 0) continue;
-                struct MEntry *m = &model[live_index[h]];
-                if (!have || less(m->q, m->r, bq, br)) { bq = m->q; br = m->r; have = 1; }
+                if (!live[h]) continue;
+                uint c = min_valid[h];
+                if (!have || less(mq[h][c], mr[h][c], bq, br)) { bq = mq[h][c]; br = mr[h][c]; have = 1; }
             }
             if (!have) {
                 if (top.event_handler != NULL) fail("root() returned an entry although no live entry exists");
             } else {
                 if (top.event_handler == NULL) fail("root() returned the empty sentinel although a live entry exists");
                 int h = (int) ((uintptr_t) top.event_handler) - 1;
-                if (h < 0 || h >= NH || live_index[h] < 0) fail("root() returned a trashed entry");
-                if (top.counter < min_valid[h]) fail("root() returned a stale entry of a handler");
+                if (h < 0 || h >= NH || !live[h]) fail("root() returned a trashed entry");
+                if (top.counter != min_valid[h]) fail("root() returned a stale entry of a handler");
                 if (top.time_quotient != bq || top.time_remainder != br) fail("root() is not the minimal live time");
-                if (model[live_index[h]].q != top.time_quotient || model[live_index[h]].r != top.time_remainder)
+                if (mq[h][top.counter] != top.time_quotient || mr[h][top.counter] != top.time_remainder)
                     fail("root() returned a time that is not the handler's live time");
             }
             scan(heap, 0);
@@ -127,20 +133,27 @@ int LLVMFuzzerTestOneInput(const uint8_t *data, size_t size) {
             int h = data[i++] % NH;
             scan(heap, 0); /* sync lazily discarded stale entries first */
             delete_events(heap, (void *) (uintptr_t) (h + 1));
-            for (int j = 0; j < model_n; j++) if (model[j].present && model[j].h == h) model[j].present = 0;
+            for (uint c = 0; c < MAXC; c++) if (present[h][c]) { present[h][c] = 0; total_present--; }
             min_valid[h] = 0;
-            live_index[h] = -1;
+            live[h] = 0;
             scan(heap, 1);
-        } else { /* burst: many pushes of distinct handlers is impossible with NH handlers; re-push after trash */
+        } else { /* burst: trash-and-repush many handlers to grow the heap across reallocation sizes (64, 128, 256, ...);
+                    odd arguments fill the heap exactly up to the next power-of-two capacity (no spare slot left
+                    unless the code keeps one), the place where an off-by-one in the growth rule shows */
             if (i >= size) break;
-            int n = data[i++] % 200;
-            for (int k = 0; k < n && model_n < MAXE - 1; k++) {
+            int n = data[i++];
+            if (n & 1) {
+                scan(heap, 0);
+                int entries = total_present + 1; /* + sentinel */
+                int target = 64;
+                while (target < entries + 1 + (n >> 5)) target *= 2;
+                n = target - entries;
+                if (n > 300) n = 300;
+            }
+            for (int k = 0; k < n; k++) {
                 int h = k % NH;
-                if (live_index[h] >= 0) { min_valid[h]++; live_index[h] = -1; }
-                double q = QS[(k * 7 + n) & 3], r = RS[(k * 3 + n) & 3];
-                insert(heap, q, r, (void *) (uintptr_t) (h + 1), min_valid[h]);
-                model[model_n] = (struct MEntry) {q, r, h, min_valid[h], 1};
-                live_index[h] = model_n++;
+                if (live[h] && min_valid[h] + 1 < MAXC) { min_valid[h]++; live[h] = 0; }
+                push(heap, h, QS[(k * 7 + n) & 3], RS[(k * 3 + n) & 3]);
             }
         }
     }
